@@ -2,7 +2,9 @@
 
 case = {"pool": ["T", total, connect, read] | ["raw", x],
         "objs": [[total, connect, read], ...]      request-level Timeout objects (built once, may be reused),
-        "reqs": [{"t": ["default"] | ["obj", i] | ["raw", x], "d": connect-duration, "close": bool}, ...]}
+        "reqs": [{"t": ["default"] | ["obj", i] | ["raw", x], "d": connect-duration, "close": bool}, ...],
+        "route": absent | "tunnel"   (an https origin through a CONNECT tunnel of an http proxy; the TLS handshake is replaced by the identity;
+                                      connecting to the proxy takes d; judged by the oracle only)}
 values: "unset" (the _DEFAULT_TIMEOUT sentinel / argument omitted), None, True (a bool), "bad" (a non-number),
         or a number given as a string fraction "p/q" (dyadic, so float arithmetic is exact).
 The real HTTPConnectionPool runs over the in-memory network with a virtual
@@ -17,11 +19,11 @@ from sexp import Z, B
 ID = "C19"
 GEN = []
 RULE = ("full grid of (total, connect, read) over {unset, None, 1/2, 2, 10} at pool or request level x connect durations "
-        "{0, 0.3~5/16, 1, 5, 20} x sequences of 1-2 requests (fresh / reused connection, shared Timeout objects), plus invalid "
+        "{0, 0.3~5/16, 1, 5, 20} x sequences of 1-2 requests (fresh / reused connection, shared Timeout objects), direct or through a CONNECT tunnel, plus invalid "
         "values; non-trivial = at least one request reached the network or was rejected; distinct = distinct (case, observation)")
 TRUSTED_BASE = [
     "model coq/model/Timeout.v over exact rationals (Q); IEEE rounding of total - elapsed is not modelled (grid values are dyadic so float arithmetic is exact)",
-    "plain-HTTP pools only (the connect happens inside conn.request); socket.getdefaulttimeout() is None in the harness",
+    "plain-HTTP pools (the connect happens inside conn.request) and https origins through a CONNECT tunnel of an http proxy with the TLS handshake replaced by the identity (the connect happens in _prepare_proxy); socket.getdefaulttimeout() is None in the harness",
 ]
 ASSUMPTIONS = ["total=_DEFAULT_TIMEOUT sentinel is outside the property's domain and never generated", "virtual clock replaces time.monotonic as seen by urllib3.util.timeout"]
 EXHAUSTIVE = {"quick": False, "thorough": True}
@@ -61,7 +63,7 @@ def encode(case):
         else:
             k, a = 2, enc_raw(t[1])
         reqs.append([k, a, enc_q(r["d"]), B(r["close"])])
-    return head + [objs, reqs]
+    return head + [objs, reqs] + ([1] if case.get("route") == "tunnel" else [])
 
 
 def describe(case):
@@ -114,7 +116,10 @@ def impl(case):
             clock.advance(state["d"])
 
             def on_data(peer, data):
-                if b"\r\n\r\n" in peer.inbox:
+                if bytes(peer.inbox[:8]) == b"CONNECT " and b"\r\n\r\n" in peer.inbox:
+                    peer.inbox.clear()
+                    peer.send(b"HTTP/1.1 200 Connection established\r\n\r\n")
+                elif b"\r\n\r\n" in peer.inbox:
                     peer.inbox.clear()
                     hdrs = [("Connection", "close")] if state["close"] else []
                     peer.send(http_response(headers=hdrs))
@@ -130,6 +135,25 @@ def impl(case):
     old_time = ut.time
     ut.time = FakeTime
     problems = []
+    import urllib3.connection as uconn
+    import warnings
+
+    def fake_wrap(sock, **kw):
+        sock.getpeercert = lambda binary_form=False: (b"" if binary_form else {})
+        sock.version = lambda: "TLSv1.3"
+        sock.selected_alpn_protocol = lambda: None
+        return sock
+    old_wrap = uconn.ssl_wrap_socket
+    tunnel = case.get("route") == "tunnel"
+    if tunnel:
+        uconn.ssl_wrap_socket = fake_wrap
+        warnings.simplefilter("ignore")
+
+    def make_pool(**kw):
+        if tunnel:
+            pm = urllib3.ProxyManager("http://proxy.example:3128", cert_reqs="CERT_NONE", maxsize=1, **kw)
+            return pm.connection_from_host("h.example", 443, "https")
+        return urllib3.HTTPConnectionPool("h.example", 80, maxsize=1, **kw)
     try:
         built = []
         built_ok = []
@@ -143,13 +167,13 @@ def impl(case):
                 p = case["pool"]
                 if p[0] == "T":
                     pool_t = build_timeout(p[1:])
-                    pool = urllib3.HTTPConnectionPool("h.example", 80, maxsize=1, timeout=pool_t)
+                    pool = make_pool(timeout=pool_t)
                 elif p[1] == "unset":
                     pool_t = None
-                    pool = urllib3.HTTPConnectionPool("h.example", 80, maxsize=1)
+                    pool = make_pool()
                 else:
                     pool_t = None
-                    pool = urllib3.HTTPConnectionPool("h.example", 80, maxsize=1, timeout=pyval(p[1]))
+                    pool = make_pool(timeout=pyval(p[1]))
             except ValueError:
                 return [0, built_ok]
             out = []
@@ -196,7 +220,12 @@ def impl(case):
             return [1, built_ok, out]
     finally:
         ut.time = old_time
+        uconn.ssl_wrap_socket = old_wrap
         _STASH[id(case)] = problems
+
+
+def in_model_domain(case):
+    return True
 
 
 # ---------------------------------------------------------------- oracle: the property's formulae with Fraction
@@ -276,7 +305,10 @@ def oracle(case, obs):
 
 
 def signature(case, obs, msg):
-    return {"msg": (msg or "")[:50]}
+    m = msg or ""
+    if case.get("route") == "tunnel" and ("response wait used timeout" in m or "remaining read budget is 0 but no ReadTimeoutError" in m):
+        return {"kind": "tunnel-connect-time-not-subtracted"}
+    return {"msg": m[:50]}
 
 
 def nontrivial(case, obs):
@@ -340,6 +372,17 @@ def cases(rng, tier):
                 pool2.append({"pool": ["T"] + list(tr), "objs": [list(tr2)], "reqs": [{"t": ["obj", 0], "d": d1, "close": rng.random() < 0.5},
                                                                                    {"t": ["default"], "d": rng.choice(DUR), "close": False},
                                                                                    {"t": ["obj", 0], "d": rng.choice(DUR), "close": False}]})
+    # the same through a CONNECT tunnel: connecting (to the proxy) still counts against total
+    tun = []
+    for tr in grid:
+        for d in DUR:
+            tun.append({"route": "tunnel", "pool": ["T"] + list(tr), "objs": [], "reqs": [{"t": ["default"], "d": d, "close": False}]})
+            tun.append({"route": "tunnel", "pool": ["raw", "unset"], "objs": [list(tr)], "reqs": [{"t": ["obj", 0], "d": d, "close": False}]})
+            tun.append({"route": "tunnel", "pool": ["raw", "10"], "objs": [list(tr)], "reqs": [{"t": ["obj", 0], "d": d, "close": rng.random() < 0.5},
+                                                                                              {"t": ["obj", 0], "d": rng.choice(DUR), "close": False}]})
+    if tier == "quick":
+        tun = rng.sample(tun, 400)
+    out += tun
     if tier == "quick":
         seqs = rng.sample(seqs, 1200)
         pool2 = rng.sample(pool2, 200)
